@@ -413,8 +413,9 @@ def style_of(style):
 
 MODES = ['ReplaceMode', 'AndMode', 'OrMode', 'XorMode', 'AndNotMode', 'NewMode']
 LABELS = ['alpha', 'beta', 'gamma', 'd1', 'Subset 1', 'x']
-STYLE_VALUES = {'color': ['#ff0000', '#00ff00', '#0000ff', '#123456'], 'alpha': [0.2, 0.5, 0.9],
-                'markersize': [3, 7, 11], 'linewidth': [1, 2.5, 4]}
+STYLE_VALUES = {'color': ['#ff0000', '#00ff00', '#0000ff', '#123456'], 'alpha': [0.2, 0.5, 0.9, 0, 1.0, 0.0],
+                'markersize': [3, 7, 11, 0], 'linewidth': [1, 2.5, 4, 0], 'marker': ['o', 's', '^', '+'],
+                'linestyle': ['solid', 'dashed', 'dotted']}
 
 
 def exec_common(w, op):
